@@ -98,7 +98,7 @@ type model struct {
 	keyMemo   map[ssa.Value]string
 	guardMemo map[*ssa.BasicBlock][]atom
 	tloops    map[*ssa.BasicBlock]*tloop
-	initMemo map[*ssa.Alloc]map[*types.Var]ssa.Value // localInit
+	initMemo  map[*ssa.Alloc]map[*types.Var]ssa.Value // localInit
 
 }
 
